@@ -66,6 +66,10 @@ import json
 import os
 
 HERE = os.path.dirname(os.path.abspath(__file__))
+
+# source functions whose control flow is regenerated on every run (read by tools/coverage_map.py)
+TRANSLATED = ['pyramid/authorization.py:ACLHelper.permits',
+              'pyramid/authorization.py:ACLHelper.principals_allowed_by_permission']
 FALLBACK = os.path.join(HERE, 'gen_fallback.json')
 
 # ---- types of the translated fragment
